@@ -22,6 +22,7 @@ import (
 	"github.com/octohelm/gengo/pkg/inflector"
 
 	"verif/internal/core"
+	"verif/internal/firstuse"
 )
 
 func init() { core.Register(&prop{}) }
@@ -462,53 +463,6 @@ func init() {
 	})
 }
 
-type firstUseArg struct {
-	Procs  int      `json:"procs"`
-	G      int      `json:"g"`
-	Inputs []string `json:"inputs"`
-}
-
-func init() {
-	// the process's very FIRST uses of the inflector happen concurrently: G goroutines leave a barrier together, each
-	// walks the inputs from a different offset. Output: per goroutine and input the two results (or the panic).
-	core.RegisterHelper("c20first", func(argFile string) {
-		b, err := os.ReadFile(argFile)
-		if err != nil {
-			panic(err)
-		}
-		var a firstUseArg
-		if err := json.Unmarshal(b, &a); err != nil {
-			panic(err)
-		}
-		runtime.GOMAXPROCS(a.Procs)
-		out := make([][][2]string, a.G)
-		start := make(chan struct{})
-		var wg sync.WaitGroup
-		for g := 0; g < a.G; g++ {
-			out[g] = make([][2]string, len(a.Inputs))
-			wg.Add(1)
-			go func(g int) {
-				defer wg.Done()
-				<-start
-				for k := range a.Inputs {
-					i := (k + g*7) % len(a.Inputs)
-					s := a.Inputs[i]
-					if pk, pv, _ := core.Guard(func() { out[g][i][0] = inflector.Pluralize(s) }); pk {
-						out[g][i][0] = fmt.Sprintf("\x00PANIC: %v", pv)
-					}
-					if pk, pv, _ := core.Guard(func() { out[g][i][1] = inflector.Singularize(s) }); pk {
-						out[g][i][1] = fmt.Sprintf("\x00PANIC: %v", pv)
-					}
-				}
-			}(g)
-		}
-		close(start)
-		wg.Wait()
-		ob, _ := json.Marshal(out)
-		_ = os.WriteFile(argFile+".out", ob, 0o644)
-	})
-}
-
 // runFirstUse: fresh child processes (the -race build when the check runs under the race detector) in which the first
 // calls ever made to the inflector are concurrent; every goroutine's answers must equal this process's sequential ones,
 // no call may panic, and the child's race detector must stay silent.
@@ -528,48 +482,39 @@ func (p *prop) runFirstUse(c core.Case, w *core.Worker, res *core.Result) {
 	if len(inputs) > 160 {
 		inputs = inputs[:160]
 	}
-	here := inflectAll(inputs)
+	here := firstuse.Sequential("inflector", inputs)
+	fns := firstuse.Funcs["inflector"]
 	for child := 0; child < pa["children"]; child++ {
-		argFile := filepath.Join(w.Scratch, fmt.Sprintf("c20first-%d-%d.json", c.ID, child))
-		ib, _ := json.Marshal(firstUseArg{Procs: pa["procs"], G: pa["g"], Inputs: inputs})
-		_ = os.WriteFile(argFile, ib, 0o644)
-		cmd := exec.Command(os.Getenv("VERIF_EXE"), "-helper", "c20first", argFile)
-		cmd.Env = append(os.Environ(), "GORACE=halt_on_error=0")
-		ob, err := cmd.CombinedOutput()
+		ch := firstuse.Run(w.Scratch, fmt.Sprintf("c20-%d-%d", c.ID, child), firstuse.Arg{Kind: "inflector", Procs: pa["procs"], G: pa["g"], Inputs: inputs})
 		res.Inc("first_use_child_processes")
-		if n := strings.Count(string(ob), "WARNING: DATA RACE"); n > 0 {
-			res.Fail("data-race", "first use", fmt.Sprintf("the race detector reported %d data race(s) in a process whose first inflector calls were concurrent (%d goroutines, GOMAXPROCS %d):\n%s", n, pa["g"], pa["procs"], clipS(string(ob), 3000)), nil)
-			res.Count("first_use_race_reports", int64(n))
-		} else if err != nil {
-			if _, statErr := os.Stat(argFile + ".out"); statErr != nil {
-				res.Fail("first-use-crash", "first use", fmt.Sprintf("the child process died before writing its results: %v\n%s", err, clipS(string(ob), 3000)), nil)
-				continue
-			}
+		if ch.Races > 0 {
+			res.Fail("data-race", "first use", fmt.Sprintf("the race detector reported %d data race(s) in a process whose first inflector calls were concurrent (%d goroutines, GOMAXPROCS %d):\n%s", ch.Races, pa["g"], pa["procs"], clipS(ch.Log, 3000)), nil)
+			res.Count("first_use_race_reports", int64(ch.Races))
 		}
-		var there [][][2]string
-		tb, _ := os.ReadFile(argFile + ".out")
-		os.Remove(argFile)
-		os.Remove(argFile + ".out")
-		if err := json.Unmarshal(tb, &there); err != nil || len(there) != pa["g"] {
-			res.Inconclusive = append(res.Inconclusive, "first-use helper output unreadable: "+clipS(string(ob), 500))
+		if ch.Crashed {
+			res.Fail("first-use-crash", "first use", fmt.Sprintf("the child process died before writing its results: %s\n%s", ch.Err, clipS(ch.Log, 3000)), nil)
+			continue
+		}
+		if ch.Err != "" {
+			res.Inconclusive = append(res.Inconclusive, "first-use child: "+ch.Err+" "+clipS(ch.Log, 500))
 			return
 		}
-		for g := range there {
+		for g := range ch.Out {
 			for i, s := range inputs {
 				res.Evals++
-				for k := 0; k < 2; k++ {
-					got := there[g][i][k]
+				for k, fn := range fns {
+					got := ch.Out[g][i][k]
 					switch {
 					case strings.HasPrefix(got, "\x00PANIC"):
-						res.Fail("panic", "first use "+ops[k].name, fmt.Sprintf("%s(%q) panicked in a process whose first inflector calls were concurrent: %s", ops[k].name, s, got[1:]), s)
+						res.Fail("panic", "first use "+fn.Name, fmt.Sprintf("%s(%q) panicked in a process whose first inflector calls were concurrent: %s", fn.Name, s, got[1:]), s)
 					case got != here[i][k]:
-						res.Fail("same-result-concurrently", "first use "+ops[k].name, fmt.Sprintf("%s(%q) = %q in goroutine %d of a process whose first inflector calls were concurrent, %q sequentially", ops[k].name, s, got, g, here[i][k]), s)
+						res.Fail("same-result-concurrently", "first use "+fn.Name, fmt.Sprintf("%s(%q) = %q in goroutine %d of a process whose first inflector calls were concurrent, %q sequentially", fn.Name, s, got, g, here[i][k]), s)
 					}
 				}
 			}
 		}
 		res.NonTrivial(fmt.Sprintf("first-use|%d|%d|%d|%d", c.Seed, child, pa["procs"], pa["g"]))
-		res.Count("first_use_results_compared", int64(2*len(inputs)*len(there)))
+		res.Count("first_use_results_compared", int64(len(fns)*len(inputs)*len(ch.Out)))
 	}
 }
 
